@@ -4,7 +4,9 @@ go 1.26.5
 
 require (
 	github.com/cosi-project/runtime v0.0.0
+	github.com/siderolabs/gen v0.8.7
 	go.etcd.io/bbolt v1.5.0
+	go.uber.org/zap v1.28.0
 	google.golang.org/grpc v1.82.0
 )
 
@@ -16,15 +18,14 @@ require (
 	github.com/klauspost/compress v1.19.0 // indirect
 	github.com/planetscale/vtprotobuf v0.6.1-0.20240319094008-0393e58bdf10 // indirect
 	github.com/pmezard/go-difflib v1.0.0 // indirect
-	github.com/siderolabs/gen v0.8.7 // indirect
 	github.com/siderolabs/go-pointer v1.0.1 // indirect
 	github.com/siderolabs/go-retry v0.3.3 // indirect
 	github.com/siderolabs/protoenc v0.2.4 // indirect
 	github.com/stretchr/testify v1.11.1 // indirect
 	go.uber.org/multierr v1.11.0 // indirect
-	go.uber.org/zap v1.28.0 // indirect
 	go.yaml.in/yaml/v4 v4.0.0-rc.6 // indirect
 	golang.org/x/net v0.57.0 // indirect
+	golang.org/x/sync v0.22.0 // indirect
 	golang.org/x/sys v0.47.0 // indirect
 	golang.org/x/text v0.40.0 // indirect
 	golang.org/x/time v0.15.0 // indirect
